@@ -27,15 +27,16 @@ try:
         res['demo_with'] = 'PASS' if rc == 0 else 'FAIL(rc=%d)' % rc
 finally:
     run(['git', '-C', '/repo', 'worktree', 'remove', '--force', wt]); shutil.rmtree(wt, ignore_errors=True)
+REPO = os.environ.get('SEED_REPO', '/repo'); VERIF = os.environ.get('SEED_VERIF', '/verif')
 if checks and res.get('applies'):
-    rc, out = run(['git', '-C', '/repo', 'status', '--porcelain']); assert out.strip() == '', 'repo dirty: ' + out
+    rc, out = run(['git', '-C', REPO, 'status', '--porcelain']); assert out.strip() == '', 'repo dirty: ' + out
     try:
-        rc, out = run(['git', '-C', '/repo', 'apply', patch]); assert rc == 0, out
+        rc, out = run(['git', '-C', REPO, 'apply', patch]); assert rc == 0, out
         res['checks'] = {}
         for c in checks:
-            rc, out = run(['/verif/check', c, '--tier', 'quick'], cwd='/verif', timeout=3600)
+            rc, out = run([VERIF + '/check', c, '--tier', 'quick'], cwd=VERIF, timeout=3600, env=dict(os.environ, RIMU_REPO=REPO))
             viol = [l for l in out.splitlines() if l.startswith('VIOLATION')]
             res['checks'][c] = {'exit': rc, 'violations': viol[:3], 'tail': out.strip().splitlines()[-1][:300] if out.strip() else ''}
     finally:
-        run(['git', '-C', '/repo', 'checkout', '--', '.'])
+        run(['git', '-C', REPO, 'checkout', '--', '.'])
 print(json.dumps(res, indent=1))
